@@ -92,6 +92,7 @@ func (n *node) invalidate() {
 		out = append(out, to)
 	}
 	n.mu.Unlock()
+	verifYield("invalidate.unlocked")
 
 	if n.afterInvalidate != nil {
 		n.afterInvalidate()
@@ -115,6 +116,7 @@ func (n *node) release() {
 
 	n.released = true
 	n.mu.Unlock()
+	verifYield("release.unlocked")
 
 	if n.afterRelease != nil {
 		n.afterRelease()
@@ -164,6 +166,7 @@ func (n *node) addOut(to *node) {
 
 	to.mu.Unlock()
 	n.mu.Unlock()
+	verifYield("addOut.unlocked")
 
 	if shouldInvalidate {
 		go to.invalidate()
